@@ -1629,8 +1629,159 @@ const FIXED_BUCKETS: [&str; 47] = [
     "leap_timestamp_plus_two_case", "leap_timestamp_minus_one_case", "out_of_range_field_case", "nonexistent_combination_case", "tz_offset_mismatch",
     "timestamp_without_offset_is_utc", "iso_spill_day", "week_zero", "week_53", "feb_29", "hostile_ok", "hostile_err", "range_end_timestamp",
     "second60_at_range_min", "setter_route", "missing_second_assumed_zero", "setter_in_range", "setter_out_of_range", "setter_twice_equal",
-    "setter_twice_different", "exhaustive_date_subsets", "", "", "", "",
+    "setter_twice_different", "exhaustive_date_subsets", "zone_with_fold_ambiguous", "zone_with_fold_gap", "zone_with_fold_single", "zone_with_fold_timestamp",
 ];
+
+/// A time zone with one fold and one gap, through the public `TimeZone` trait: +02:00 until
+/// 2021-10-31T01:00:00Z, +01:00 until 2022-03-27T01:00:00Z, +02:00 afterwards. `FixedOffset` and
+/// `Utc` never return `Ambiguous`, so the disambiguation-by-offset arm of
+/// `to_datetime_with_timezone` is only reachable through a zone like this (or `Local`).
+#[derive(Clone, Copy, Debug)]
+struct FoldTz;
+const FOLD_T0: i64 = 1_635_642_000; // 2021-10-31T01:00:00Z
+const FOLD_T1: i64 = 1_648_342_800; // 2022-03-27T01:00:00Z
+fn fold_offset_at(u: i64) -> i32 {
+    if u < FOLD_T0 || u >= FOLD_T1 {
+        7200
+    } else {
+        3600
+    }
+}
+impl TimeZone for FoldTz {
+    type Offset = chrono::FixedOffset;
+    fn from_offset(_: &chrono::FixedOffset) -> Self {
+        FoldTz
+    }
+    #[allow(deprecated)]
+    fn offset_from_local_date(&self, local: &NaiveDate) -> chrono::MappedLocalTime<chrono::FixedOffset> {
+        self.offset_from_local_datetime(&local.and_time(NaiveTime::MIN))
+    }
+    fn offset_from_local_datetime(&self, local: &NaiveDateTime) -> chrono::MappedLocalTime<chrono::FixedOffset> {
+        let l = local.and_utc().timestamp();
+        let mut c: Vec<i32> = [7200, 3600].into_iter().filter(|o| fold_offset_at(l - *o as i64) == *o).collect();
+        c.sort_by_key(|o| l - *o as i64);
+        let fo = |o: i32| chrono::FixedOffset::east_opt(o).unwrap();
+        match c.len() {
+            0 => chrono::MappedLocalTime::None,
+            1 => chrono::MappedLocalTime::Single(fo(c[0])),
+            _ => chrono::MappedLocalTime::Ambiguous(fo(c[0]), fo(c[1])),
+        }
+    }
+    #[allow(deprecated)]
+    fn offset_from_utc_date(&self, utc: &NaiveDate) -> chrono::FixedOffset {
+        self.offset_from_utc_datetime(&utc.and_time(NaiveTime::MIN))
+    }
+    fn offset_from_utc_datetime(&self, utc: &NaiveDateTime) -> chrono::FixedOffset {
+        chrono::FixedOffset::east_opt(fold_offset_at(utc.and_utc().timestamp())).unwrap()
+    }
+}
+
+/// Soundness of `to_datetime_with_timezone` for a zone whose local times can be ambiguous or
+/// skipped: a successful result must agree with every supplied field, in particular with the
+/// supplied `offset` and `timestamp`; a local time that the zone maps to two instants resolves
+/// only through the offset (or timestamp) field.
+fn zone_with_fold(ctx: &Ctx, rep: &Report, bk: [usize; 4]) {
+    use chrono::{Datelike, Timelike};
+    let n = ctx.n(40_000, 2_000_000);
+    par_shards(rep, ctx.threads, 16, |shard| {
+        let mut rng = Rng::new(ctx.seed, "C14/fold-tz", shard as u64);
+        let mut loc = rep.local();
+        for _ in 0..n / 16 {
+            // a wall-clock second around the fold, the gap, or elsewhere
+            let l = match rng.below(4) {
+                0 => FOLD_T0 + 3600 + rng.range(-5, 3605),  // fold walls are [T0+3600, T0+7200)
+                1 => FOLD_T1 + 3600 + rng.range(-5, 3605),  // gap walls are [T1+3600, T1+7200)
+                2 => rng.range(FOLD_T0 - 86_400 * 30, FOLD_T1 + 86_400 * 30),
+                _ => *rng.pick(&[FOLD_T0 + 3600, FOLD_T0 + 7199, FOLD_T0 + 7200, FOLD_T0 + 3599, FOLD_T1 + 3600, FOLD_T1 + 7199, FOLD_T1 + 7200, FOLD_T1 + 3599]),
+            };
+            let Some(local) = chrono::DateTime::from_timestamp(l, 0).map(|d| d.naive_utc()) else { continue };
+            let cands: Vec<i32> = [7200, 3600].into_iter().filter(|o| fold_offset_at(l - *o as i64) == *o).collect();
+            loc.eval();
+            loc.bucket(bk[match cands.len() {
+                2 => 0,
+                0 => 1,
+                _ => 2,
+            }]);
+            // fields: full local date and time; offset field: absent, each candidate, a foreign one
+            let off_field: Option<i64> = match rng.below(5) {
+                0 => None,
+                1 => Some(7200),
+                2 => Some(3600),
+                3 => Some(*rng.pick(&[0i64, 1800, 10_800, -3600])),
+                _ => cands.first().map(|o| *o as i64),
+            };
+            let ts_field: Option<i64> = if rng.chance(1, 4) && !cands.is_empty() {
+                loc.bucket(bk[3]);
+                Some(l - *rng.pick(&cands) as i64)
+            } else {
+                None
+            };
+            let mut p = Parsed::new();
+            let setup = (|| -> ParseResult<()> {
+                p.set_year(local.year() as i64)?;
+                p.set_month(local.month() as i64)?;
+                p.set_day(local.day() as i64)?;
+                p.set_hour(local.hour() as i64)?;
+                p.set_minute(local.minute() as i64)?;
+                p.set_second(local.second() as i64)?;
+                if let Some(o) = off_field {
+                    p.set_offset(o)?;
+                }
+                if let Some(t) = ts_field {
+                    p.set_timestamp(t)?;
+                }
+                Ok(())
+            })();
+            if setup.is_err() {
+                continue;
+            }
+            let wit = || json!({"local": format!("{:?}", local), "offset_field": off_field, "timestamp_field": ts_field, "zone": "+02:00 -> +01:00 at 2021-10-31T01:00Z -> +02:00 at 2022-03-27T01:00Z", "candidate_offsets": cands});
+            match crate::mon::guard(|| p.to_datetime_with_timezone(&FoldTz)) {
+                Err(pn) => loc.violation(&format!("C14/to_datetime_with_timezone<zone-with-fold>/panic@{}", pn.site()), json!({"case": wit(), "panic": pn.to_json()})),
+                Ok(Ok(dt)) => {
+                    let o = dt.offset().local_minus_utc() as i64;
+                    let u = dt.timestamp();
+                    let mut bad: Vec<&str> = Vec::new();
+                    if dt.naive_local() != local {
+                        bad.push("wall-clock-fields");
+                    }
+                    if off_field.map(|f| f != o).unwrap_or(false) {
+                        bad.push("offset");
+                    }
+                    if ts_field.map(|f| f != u).unwrap_or(false) {
+                        bad.push("timestamp");
+                    }
+                    if fold_offset_at(u) as i64 != o {
+                        bad.push("zone-offset-at-result");
+                    }
+                    if off_field.is_none() && ts_field.is_none() && cands.len() != 1 {
+                        bad.push("ambiguous-or-skipped-local-time-resolved-without-offset");
+                    }
+                    for b in bad {
+                        loc.violation(&format!("C14/to_datetime_with_timezone<zone-with-fold>/result-contradicts-{}", b), json!({"case": wit(), "result_utc": u, "result_offset": o}));
+                    }
+                }
+                Ok(Err(e)) => {
+                    // completeness where the property is explicit: the fields are derived from one real
+                    // value, determinate, and the offset field names one of the zone's candidates
+                    let resolvable = match (off_field, ts_field) {
+                        (Some(o), None) => cands.contains(&(o as i32)),
+                        (None, None) => cands.len() == 1,
+                        (Some(o), Some(t)) => cands.contains(&(o as i32)) && l - o == t,
+                        (None, Some(_)) => cands.len() == 1,
+                    };
+                    if resolvable {
+                        loc.violation(
+                            &format!("C14/to_datetime_with_timezone<zone-with-fold>/error-for-resolvable-set/{}", kind_name(kind_bit(e.kind()))),
+                            json!({"case": wit(), "error": format!("{:?}", e.kind())}),
+                        );
+                    }
+                }
+            }
+            loc.nontrivial(crate::mon::h2(l as u64, crate::mon::h2(off_field.unwrap_or(-1) as u64, ts_field.unwrap_or(-1) as u64)));
+        }
+    });
+}
 
 pub fn run(ctx: &Ctx) -> Outcome {
     // bucket table: fixed + one "contradiction_via_<field>" per field
@@ -1690,6 +1841,7 @@ pub fn run(ctx: &Ctx) -> Outcome {
     hostile(ctx, &rep, &ix, &cats);
     range_ends(ctx, &rep, &ix, &cats);
     setter_phase(ctx, &rep, &[bi("setter_in_range"), bi("setter_out_of_range"), bi("setter_twice_equal"), bi("setter_twice_different")]);
+    zone_with_fold(ctx, &rep, [bi("zone_with_fold_ambiguous"), bi("zone_with_fold_gap"), bi("zone_with_fold_single"), bi("zone_with_fold_timestamp")]);
     rep.finish(
         ctx,
         "field sets: (A) every one of the 2^14 subsets of the date fields of each chosen day (specification boundary days + seeded random days); (B) subsets of all 21 fields of random/boundary date-times with offset (random masks in quick; additionally every one of the 2^21 masks several times in thorough); (C) such a set with one field changed to another in-range value, an out-of-range or type-extreme value, a combination that denotes no date, or a shifted leap-second timestamp; (D) independently random fields written straight into the public fields; (E) range-end timestamps with/without second 60; every set goes through to_naive_date / to_naive_time / to_naive_datetime_with_offset / to_datetime / to_datetime_with_timezone(FixedOffset, Utc) next to the reference resolver and the soundness monitor; (F) every setter with boundary/random arguments, set once and twice. A case is non-trivial when the reference verdict for some entry point is a value or a contradiction (i.e. cross-verification is exercised, not merely 'not enough'), and every setter call; distinct = distinct field sets (hashed bitmap, collisions under-count)",
